@@ -203,8 +203,13 @@ func (r *Run) Finish(verifDir string) int {
 	sort.SliceStable(r.Obls, func(i, j int) bool { return r.Obls[i].Key() < r.Obls[j].Key() })
 
 	kidx := map[string]*Known{}
+	var wild []*Known
 	for _, k := range known {
 		if k.Property == r.Property {
+			if strings.HasSuffix(k.Key, "*") || strings.Contains(k.Rule, "|") {
+				wild = append(wild, k)
+				continue
+			}
 			kidx[k.Rule+" "+k.Key] = k
 		}
 	}
@@ -228,11 +233,24 @@ func (r *Run) Finish(verifDir string) int {
 			bump(o.Rule, "discharged")
 			continue
 		}
-		if k := kidx[o.Key()]; k != nil && o.Status == Finding {
-			k.used = true
+		k := kidx[o.Key()]
+		if k == nil && o.Status == Finding {
+			// a listed finding may name a family of constructs of ONE function and input
+			// (`key=<prefix>*`, `rule=a|b`): the same failing inputs seen through another access
+			for _, w := range wild {
+				if w.matches(o.Rule, o.Construct) {
+					k = w
+					break
+				}
+			}
+		}
+		if k != nil && o.Status == Finding {
 			nKnown++
 			bump(o.Rule, "known_finding")
-			out = append(out, fmt.Sprintf("KNOWN-FINDING: property=%s %s [%s %s]", r.Property, k.What, o.Rule, o.Construct))
+			if !(k.used && strings.HasSuffix(k.Key, "*")) {
+				out = append(out, fmt.Sprintf("KNOWN-FINDING: property=%s %s [%s %s]", r.Property, k.What, o.Rule, o.Construct))
+			}
+			k.used = true
 			continue
 		}
 		if o.Status == Undecided {
@@ -311,4 +329,21 @@ func (r *Run) Finish(verifDir string) int {
 		return 1
 	}
 	return 0
+}
+
+// matches: a wildcard entry (`key=prefix*`, `rule=a|b`) covers this obligation.
+func (k *Known) matches(rule, construct string) bool {
+	okRule := false
+	for _, r := range strings.Split(k.Rule, "|") {
+		if r == rule {
+			okRule = true
+		}
+	}
+	if !okRule {
+		return false
+	}
+	if strings.HasSuffix(k.Key, "*") {
+		return strings.HasPrefix(construct, strings.TrimSuffix(k.Key, "*"))
+	}
+	return construct == k.Key
 }
